@@ -15,7 +15,11 @@ import (
 // runChild re-executes this test binary for one crash-prone scenario; a panic
 // in a goroutine of the code under test kills only the child.
 func runChild(name string, env ...string) (exit int, output string) {
-	cmd := exec.Command(os.Args[0], "-test.run", "^"+name+"$", "-test.timeout", "120s")
+	return runChildT("120s", name, env...)
+}
+
+func runChildT(timeout string, name string, env ...string) (exit int, output string) {
+	cmd := exec.Command(os.Args[0], "-test.run", "^"+name+"$", "-test.timeout", timeout)
 	cmd.Env = append(os.Environ(), "VERIF_CHILD=1")
 	cmd.Env = append(cmd.Env, env...)
 	var buf bytes.Buffer
@@ -34,24 +38,24 @@ func runChild(name string, env ...string) (exit int, output string) {
 // ---- handshake scenarios -------------------------------------------------------
 
 type hsParams struct {
-	class    string
-	pattern  [2][]string // scripted decisions for the first packets of each direction
-	staleAB  [][]byte
-	staleBA  [][]byte
+	class                    string
+	pattern                  [2][]string // scripted decisions for the first packets of each direction
+	staleAB                  [][]byte
+	staleBA                  [][]byte
 	serverFirst, clientFirst bool
-	sendData bool
-	r        *rng
-	randomFaults int // number of random fault decisions after the script
+	sendData                 bool
+	r                        *rng
+	randomFaults             int // number of random fault decisions after the script
 }
 
 type hsResult struct {
-	closedVisibly bool
-	hsOK      [2]bool
-	hsRet     [2]bool
-	srvN      int
-	delivered bool
-	clientErr bool
-	virtual   time.Duration
+	closedVisibly            bool
+	hsOK                     [2]bool
+	hsRet                    [2]bool
+	srvN                     int
+	delivered                bool
+	clientErr                bool
+	virtual                  time.Duration
 	checkedAfter, flowsAfter bool
 }
 
@@ -352,7 +356,7 @@ func TestGenC10(t *testing.T) {
 		// hc[1] >= 0: a usable or unusable SYN is fed first, so that the hostile one arrives
 		// while the server waits for the SYNACK
 		n := hc[0]
-		exit, outp := runChild("TestChildHostileSyn", fmt.Sprintf("VERIF_SYN_N=%d", n), fmt.Sprintf("VERIF_SYN_PRE=%d", hc[1]))
+		exit, outp := runChildT("30s", "TestChildHostileSyn", fmt.Sprintf("VERIF_SYN_N=%d", n), fmt.Sprintf("VERIF_SYN_PRE=%d", hc[1]))
 		crashed := exit != 0
 		verdict := ""
 		for _, ln := range strings.Split(outp, "\n") {
